@@ -2925,8 +2925,20 @@ class _ExtMixin:
         return self.mk_list([binop("floordiv", a[0], a[1]), binop("mod", a[0], a[1])], "tuple")
 
     def x_getattr(self, a, k, n):
-        if is_const(a[1], str):
-            return self.get_attr(a[0], a[1].v, n)
+        name = self.simp(self.fold_under_guard(a[1]))
+        if isinstance(name, Ite):
+            # the attribute name is one of a few constants chosen by conditions
+            self.guard.append(name.c)
+            x = self.x_getattr([a[0], name.a] + list(a[2:]), k, n) if self.feasible() else Undef()
+            self.guard.pop()
+            self.guard.append(not_(name.c))
+            y = self.x_getattr([a[0], name.b] + list(a[2:]), k, n) if self.feasible() else Undef()
+            self.guard.pop()
+            return ite(name.c, x, y)
+        if isinstance(name, Undef):
+            return name
+        if is_const(name, str):
+            return self.get_attr(a[0], name.v, n)
         self.event("reflect", ("getattr", tuple(a)), n)
         return Op("getattr", *a)
 
